@@ -359,7 +359,10 @@ func makeHistStorage(rnd *rand.Rand, lines []string, dir string, forceFile bool)
 	var ls []filterlist.RuleList
 	var files []string
 	for i, p := range parts {
-		text := strings.Join(p, "\n") + "\n"
+		text := strings.Join(p, "\n")
+		if rnd.Intn(2) == 0 {
+			text += "\n" // every other list ends without a line break
+		}
 		if forceFile || rnd.Intn(2) == 0 {
 			fn := filepath.Join(dir, fmt.Sprintf("hist-%d-%d-%d.txt", os.Getpid(), rnd.Int63(), i))
 			if err := os.WriteFile(fn, []byte(text), 0o600); err != nil {
